@@ -8,12 +8,14 @@ META = {
            'L <= |out| <= 6L; reads inside [str, str+L)): L = 0..6 quick, 0..8 thorough, three widths. '
            'FixedStream harnesses (symbolic output index, reference decoder on both sides, overflow flag false with CAP = 6L+1, one-unit '
            'destination prefix preserved): L = 0..4 quick (char only), 0..5 thorough for char, 0..4 thorough for char16_t / char32_t. '
+           'The observer itself is checked against the reference (ent()-based scan and decoder) on EVERY word of L units, L = 0..6 / 0..8 (obs/*). '
            'Idempotence: directly (escape twice, FixedStream then lockstep comparison) for L = 0..1 quick / 0..2 thorough; and as the lemma '
            '"every word t of the output language with |t| = M is a fixed point of the escaper" for M = 0..8 quick / 0..12 thorough, which with the '
            'language clause gives escape(escape(s)) == escape(s) for every s (|s| <= 6/8) whose escaped form has at most M units.',
  'outside': 'strings longer than 6 (quick) / 8 (thorough) units (look-ahead of the escaper is 6 units: one & against the end of the buffer and against one '
             'neighbouring entity is inside, three or more interacting entities are not); idempotence for strings whose escaped form is longer than '
             '8 / 12 units; the symbolic-index FixedStream formulation beyond L = 4 / 5; wchar_t instantiations; QENTEM_AUTO_ESCAPE_HTML=0; '
+            'dec/*/L8 needs mem_gb=12 (minisat exhausts 8 GB); '
             'the routing clauses of C03 ({var:} / {raw:} / {svar:} reach the escaper or not) are a separate part of C03.',
  'assumptions': ['FixedStream stand-in for the StringStream_T template parameter (group A harnesses)',
                  'observer streams (group B): the clauses are stated on the sequence of units handed to Stream::Write / operator+=; the escaper '
@@ -31,8 +33,8 @@ def queries(tier):
     qs = []
     for ch in WIDTHS:
         for L in range(0, max(N, NX) + 1):
-            b = {'IsEqual': 6, 'Write': max(L + 1, 7), 'EscapeHTMLSpecialChars': L + 1, 'vf_buf.*': L + 1, 'dec_in': L + 1, 'dec_out': 6 * L + 1}
-            for e in ('h_lang', 'h_dec', 'h_len', 'h_fix'):
+            b = {'IsEqual': 6, 'Write': max(L + 1, 7), 'EscapeHTMLSpecialChars': L + 1, 'vf_buf.*': L + 1, 'dec_in|h_obs': L + 1, 'dec_out': 6 * L + 1}
+            for e in ('h_lang', 'h_dec', 'h_len', 'h_fix', 'h_obs'):
                 if L > (NX if e == 'h_fix' else N): continue
                 big = (e == 'h_dec' and L >= 8)     # minisat runs out of 8 GB on this one
                 qs.append(Query('%s/%s/L%d' % (e[2:], ch, L), H, e, {'L': L, 'CHAR': ch}, bounds=b, timeout=900 if big else 400,
